@@ -155,7 +155,7 @@ def gen(rng, tier):
                 hist.append({"ev": "inspect", "var": x, "acc": ["keys", "name", "chunks"]})
         for r_ in after:
             hist.append(dict({"ev": "compute", "var": r_, "entry": rng.choice(["method", "dask1", "delayed"])}, **H.rand_sched(rng)))
-    return {"recipe": recipe, "x": x, "targets": [x] + companions + follow, "history": hist}
+    return {"scribble": rng.random() < 0.5, "recipe": recipe, "x": x, "targets": [x] + companions + follow, "history": hist}
 
 
 def shape_of(case, stats):
